@@ -10,9 +10,11 @@ unquoted expressions, any hash constructor), every template at any depth and eve
 import ZygoVerif.Model.SQ
 import ZygoVerif.Spec.Subst
 import ZygoVerif.Proofs.SQ
+import ZygoVerif.Proofs.SQFresh
 import ZygoVerif.Model.LegacySQ
 import ZygoVerif.Model.MacroCall
 import ZygoVerif.Generated.SQEmit
+import ZygoVerif.Generated.SQCtx
 namespace ZygoVerif.SQ
 open ZygoVerif.Subst
 
@@ -268,6 +270,363 @@ theorem emit_call_by_symbol :
     ∧ "defmac" ∈ Generated.SQEmit.callBySymbolCases ∧ "macexpand" ∈ Generated.SQEmit.callBySymbolCases
     ∧ "unquote" ∉ Generated.SQEmit.callBySymbolCases ∧ "unquote-splicing" ∉ Generated.SQEmit.callBySymbolCases
     ∧ Generated.SQEmit.macrosAfterSwitch = true := by decide
+
+/-! ### every evaluation builds fresh containers
+(lemmas: `Proofs/SQFresh.lean`; spec: `Subst.built`, `Subst.history`) -/
+
+/-- **`sq_code_pushes_no_container`.** The code of a template never pushes, as a literal, a
+value that holds an array or a hash — the literal would be the object of the syntax tree,
+shared by all evaluations and open to `aset` / `hset` through an earlier result. -/
+theorem sq_code_pushes_no_container (H : Host) (t : Tmpl) (wf : t.WF = true) (c : List Instr)
+    (hc : genTop H t.toSexp = some c) : ∀ v, Instr.push v ∈ c → hasContainer v = false := by
+  unfold genTop at hc
+  split at hc
+  · simp at hc
+  · exact genSQ_plain H t wf c hc
+
+/-- the same for every form without a dotted pair (the forms the property speaks about) -/
+theorem sq_code_pushes_no_container_all_forms (H : Host) (s : Sexp) (hp : Proper s = true)
+    (c : List Instr) (hc : genTop H s = some c) : ∀ v, Instr.push v ∈ c → hasContainer v = false := by
+  have hd := decode_ok s hp
+  rw [← hd.1] at hc
+  exact sq_code_pushes_no_container H (decode s) hd.2 c hc
+
+/-- What the code does where the property is silent: a dotted pair is pushed as it stands in
+the syntax tree, arrays inside it included — those ARE shared between evaluations. -/
+theorem dotted_pair_shares_its_containers (H : Host) (h t : Sexp) (hd : isList t = false) :
+    genTop H (.cons h t) = some [.push (.cons h t)] := by
+  simp [genTop, isUnquoteSplicing, genSQ, hd]
+
+/-- An array sub-template is compiled to `marker … vectorize`, a hash one to
+`marker … hashize`: its value is built by the instruction that allocates. -/
+theorem sq_container_code_ends_in_alloc (H : Host) (c : List Instr) :
+    (∀ elems, genSQ H (.arr elems) = some c → ∃ b, c = .marker :: b ++ [.vectorize])
+    ∧ (∀ ty flat, genSQ H (.hash ty flat) = some c → ∃ b, c = .marker :: b ++ [.hashize ty]) := by
+  constructor
+  · intro elems h
+    simp only [genSQ] at h
+    cases hb : genArrBody H elems with
+    | none => simp [hb] at h
+    | some b => exact ⟨b, by simpa [hb] using h.symm⟩
+  · intro ty flat h
+    simp only [genSQ] at h
+    cases hb : genHashBody H flat with
+    | none => simp [hb] at h
+    | some b => exact ⟨b, by simpa [hb] using h.symm⟩
+
+/-- **`sq_result_fresh`.** On the machine that reports its allocations, evaluating `^t` on any
+stack pushes the substitution and allocates exactly the containers the template is written
+with (`Subst.built`): one new array / hash per array / hash sub-template, innermost first,
+each holding that sub-template's value. Together with `sq_code_pushes_no_container`: every
+container of the result outside the values of the unquoted expressions was allocated by
+*this* evaluation. -/
+theorem sq_result_fresh (H : Host) (t : Tmpl) (wf : t.WF = true) (st : Stack) :
+    execA H (genTop H t.toSexp) st
+      = (subst (toBinding H) t).bind (fun v => (built (toBinding H) t).map (fun b => (.val v :: st, b))) := by
+  by_cases hs : ∃ e, t = .splice e
+  · obtain ⟨e, rfl⟩ := hs
+    simp [genTop, isUnquoteSplicing_toSexp _ wf, subst, execA]
+  · have hs' : ∀ e, t ≠ .splice e := fun e h => hs ⟨e, h⟩
+    have hu : isUnquoteSplicing t.toSexp = false := by
+      rw [isUnquoteSplicing_toSexp _ wf]
+      cases t <;> first | rfl | exact absurd rfl (hs' _)
+    simp only [genTop, hu, Bool.false_eq_true, if_false]
+    rw [itemsA_ok H t wf st]
+    simp only [IB, items_single _ _ hs']
+    cases subst (toBinding H) t with
+    | none => rfl
+    | some v => cases built (toBinding H) t <;> simp [pushAll_single]
+
+/-- In contrast, a pushed value is not allocated by the run: it is the object the generator
+was handed, on every evaluation (what `sq_code_pushes_no_container` rules out for containers). -/
+theorem push_allocates_nothing (H : Host) (v : Sexp) (st : Stack) :
+    runA H [.push v] st = some (.val v :: st, []) := by
+  simp [runA, stepA, step]
+
+/-- The allocating machine is the machine of `sq_correct` with a report added. -/
+theorem sq_alloc_machine_agrees (H : Host) (c : List Instr) (st : Stack) :
+    (runA H c st).map (·.1) = run H c st := runA_fst H c st
+
+mutual
+/-- One allocation per array / hash sub-template — as many as the template is written with,
+whatever the values of the unquoted expressions. -/
+theorem built_length (ρ : Binding) : (t : Tmpl) → ∀ b, built ρ t = some b → b.length = t.containers
+  | .lit _, b, h => by simp [built] at h; simp [h.symm, Tmpl.containers]
+  | .unquote _, b, h => by simp [built] at h; simp [h.symm, Tmpl.containers]
+  | .splice _, b, h => by simp [built] at h; simp [h.symm, Tmpl.containers]
+  | .list ts, b, h => by
+    simp only [built] at h
+    simpa [Tmpl.containers] using builtL_length ρ ts b h
+  | .arr ts, b, h => by
+    simp only [built] at h
+    cases hb : builtL ρ ts with
+    | none => simp [hb] at h
+    | some b0 =>
+      cases hx : itemsL ρ ts with
+      | none => simp [hb, hx] at h
+      | some xs =>
+        simp [hb, hx] at h
+        subst h
+        simp [Tmpl.containers, builtL_length ρ ts b0 hb]
+  | .hash ty kvs, b, h => by
+    simp only [built] at h
+    cases hb : builtKV ρ kvs with
+    | none => simp [hb] at h
+    | some b0 =>
+      cases hx : itemsKV ρ kvs with
+      | none => simp [hb, hx] at h
+      | some xs =>
+        cases hm : ρ.mkHash ty xs with
+        | none => simp [hb, hx, hm] at h
+        | some hh =>
+          simp [hb, hx, hm] at h
+          subst h
+          simp [Tmpl.containers, builtKV_length ρ kvs b0 hb]
+theorem builtL_length (ρ : Binding) : (ts : List Tmpl) → ∀ b, builtL ρ ts = some b → b.length = containersL ts
+  | [], b, h => by simp [builtL] at h; simp [h.symm, containersL]
+  | t :: ts, b, h => by
+    simp only [builtL] at h
+    cases ha : built ρ t with
+    | none => simp [ha] at h
+    | some a =>
+      cases hb : builtL ρ ts with
+      | none => simp [ha, hb] at h
+      | some b0 =>
+        simp [ha, hb] at h
+        subst h
+        simp [containersL, built_length ρ t a ha, builtL_length ρ ts b0 hb]
+theorem builtKV_length (ρ : Binding) : (kvs : List (Tmpl × Tmpl)) → ∀ b, builtKV ρ kvs = some b →
+    b.length = containersKV kvs
+  | [], b, h => by simp [builtKV] at h; simp [h.symm, containersKV]
+  | (k, v) :: r, b, h => by
+    simp only [builtKV] at h
+    cases ha : built ρ k with
+    | none => simp [ha] at h
+    | some a =>
+      cases hb : built ρ v with
+      | none => simp [ha, hb] at h
+      | some b0 =>
+        cases hc : builtKV ρ r with
+        | none => simp [ha, hb, hc] at h
+        | some c0 =>
+          simp [ha, hb, hc] at h
+          subst h
+          simp only [List.length_append, containersKV, built_length ρ k a ha, built_length ρ v b0 hb,
+            builtKV_length ρ r c0 hc]
+          omega
+end
+
+/-- **`sq_history`.** One template evaluated once per mutation in `μs`, the program mutating
+in place the containers of each result before the next evaluation: on the model every
+evaluation yields the substitution (the code of a template reads the values of the unquoted
+expressions and nothing else — no object of an earlier result, `sq_code_pushes_no_container`),
+which is what the history specification asks of the results as they are produced. -/
+theorem sq_history (H : Host) (t : Tmpl) (wf : t.WF = true) (μs : List Mutation) (rs fs : List Sexp)
+    (h : history (toBinding H) μs t = some (rs, fs)) :
+    ∀ r ∈ rs, evalSQ H t.toSexp = some (r, 0) := by
+  unfold history at h
+  cases hv : subst (toBinding H) t with
+  | none => simp [hv] at h
+  | some v =>
+    simp only [hv, Option.bind_some, Option.map_eq_some_iff, Prod.mk.injEq] at h
+    obtain ⟨_, _, hrs, _⟩ := h
+    intro r hr
+    rw [← hrs] at hr
+    simp only [List.mem_map] at hr
+    obtain ⟨_, _, rfl⟩ := hr
+    rw [sq_correct H t wf, hv]
+    rfl
+
+section FreshExamples
+/-- `(defn mk [tag] ^(~tag [0 0]))`: every evaluation allocates the array `[0 0]` anew; the
+code pushes only `0`, `0` (and runs `tag`), never the array. -/
+example :
+    let t := Tmpl.list [.unquote (sym "x"), .arr [.lit (.int 0), .lit (.int 0)]]
+    execA exH (genTop exH t.toSexp) []
+        = some ([.val (mkList [num 5, .arr (mkList [num 0, num 0])])], [.arr (mkList [num 0, num 0])])
+      ∧ genTop exH t.toSexp
+        = some [.marker, .eval (sym "x"), .marker, .marker, .push (num 0), .squash, .explode,
+                .marker, .push (num 0), .squash, .explode, .vectorize, .squash] := by
+  decide
+
+/-- a history of two evaluations with `(aset c 0 77)` in between: both yield `(5 [0 0])`; the
+first result ends as `(5 [77 0])`, the second untouched by it -/
+example :
+    let t := Tmpl.list [.unquote (sym "x"), .arr [.lit (.int 0), .lit (.int 0)]]
+    let aset0 : Mutation := { arr := fun xs => match xs with | [] => [] | _ :: r => num 77 :: r, hash := id }
+    let none' : Mutation := { arr := id, hash := id }
+    history (toBinding exH) [aset0, none'] t
+      = some ([mkList [num 5, .arr (mkList [num 0, num 0])], mkList [num 5, .arr (mkList [num 0, num 0])]],
+              [mkList [num 5, .arr (mkList [num 77, num 0])], mkList [num 5, .arr (mkList [num 0, num 0])]]) := by
+  decide
+end FreshExamples
+
+/-! ### the call site: the generator context is carried through expansion
+(`genC`, Model/MacroCall.lean) -/
+
+/-- **`macro_call_in_context`.** In *every* context — any loop stack `loops` (plain, labelled,
+nested), any generator state `s` (number of open scopes, tail flag, function being compiled) —
+compiling a macro call yields exactly the code of compiling its expansion in that same
+context: same loops to break out of, same number of scopes to pop, same tail position. -/
+theorem macro_call_in_context (E : CEnv) (n : Nat) (loops : List Loop) (s : GenSt) (f : String)
+    (args : Sexp) (m : Macro) (as : List Sexp)
+    (hs : f ∉ specialForms) (hm : E.macros f = some m) (ha : listToArray args = some as)
+    (hassign : ((Sexp.atom (.sym f)) :: as).any (fun x => x = .atom (.sym "=") || x = .atom (.sym ":=")) = false) :
+    genC E (n + 1) loops s (.cons (.atom (.sym f)) args)
+      = (expand E.mkHash m as).bind (genC E n loops s) := by
+  simp only [genC, ha, hassign, hm, hs, Bool.false_eq_true, if_false]
+
+/-- … which, for a template macro, is the code of the substituted body written by hand. -/
+theorem macro_call_in_context_handwritten (E : CEnv) (n : Nat) (loops : List Loop) (s : GenSt) (f : String)
+    (args : Sexp) (m : Macro) (as : List Sexp) (T : Tmpl) (x : Sexp)
+    (hs : f ∉ specialForms) (hm : E.macros f = some m) (ha : listToArray args = some as)
+    (hassign : ((Sexp.atom (.sym f)) :: as).any (fun x => x = .atom (.sym "=") || x = .atom (.sym ":=")) = false)
+    (wf : T.WF = true) (hb : m.body = T.toSexp) (hl : as.length = m.params.length)
+    (hx : subst (toBinding (paramHost E.mkHash m.params as)) T = some x) :
+    genC E (n + 1) loops s (.cons (.atom (.sym f)) args) = genC E n loops s x := by
+  rw [macro_call_in_context E n loops s f args m as hs hm ha hassign,
+    expand_is_substitution E.mkHash m as T wf hb hl, hx]
+  rfl
+
+section CtxExamples
+/-- `(defmac stopWhen [c] ^(cond ~c (break) null))` -/
+def stopWhen : Macro :=
+  { params := ["c"], body := (Tmpl.list [.lit (.sym "cond"), .unquote (sym "c"),
+      .list [.lit (.sym "break")], .lit (.sym "null")]).toSexp }
+def exE : CEnv := { mkHash := exH.mkHash, macros := fun f => if f = "stopWhen" then some stopWhen else none,
+                    builtin := fun _ => false }
+def lst (xs : List Sexp) : Sexp := mkList xs
+/-- `(for [(def i 0) (< i 10) (def i (+ i 1))] (let [j (* i 2)] □ (set acc (+ acc j))))` -/
+def loopLet (hole : Sexp) : Sexp :=
+  lst [sym "for", .arr (lst [lst [sym "def", sym "i", num 0], lst [sym "<", sym "i", num 10],
+                              lst [sym "def", sym "i", lst [sym "+", sym "i", num 1]]]),
+       lst [sym "let", .arr (lst [sym "j", lst [sym "*", sym "i", num 2]]), hole,
+            lst [sym "set", sym "acc", lst [sym "+", sym "acc", sym "j"]]]]
+
+/-- The macro call inside a `let` inside a loop: the `break` of the expansion pops ONE scope
+(the `let`), like the hand-written `cond`; directly in the loop body it pops none; two `let`s
+deep it pops two. -/
+example :
+    genProgram exE 50 [loopLet (lst [sym "stopWhen", lst [sym ">", sym "j", num 6]])]
+      = genProgram exE 50 [loopLet (lst [sym "cond", lst [sym ">", sym "j", num 6], lst [sym "break"], sym "null"])]
+    ∧ genProgram exE 50 [loopLet (lst [sym "stopWhen", lst [sym ">", sym "j", num 6]])]
+      = some [.loopStart 0, .addScope, .callX "+" 2, .callX "<" 2, .addScope, .callX "*" 2, .callX ">" 2,
+              .brk 0 1, .callX "+" 2, .remScope, .remScope] := by
+  decide
+
+/-- the hypotheses of `macro_call_in_context` are satisfiable -/
+example : "stopWhen" ∉ specialForms ∧ (exE.macros "stopWhen").isSome = true := by decide
+end CtxExamples
+
+/-! ### a function that rebinds its own name through a macro
+Since /repo 70c349a a function whose body binds or assigns its own name is compiled with
+funcname = "" (`rebindsOwnName`): calls of the name are ordinary calls of the new binding. The
+scan reads the body *as written*: a binding made by a macro expansion is not seen, the call
+stays a jump — the macro call no longer equals the hand-written form (found by `sq k`;
+fixes/C15-04 lets the scan follow expansions; `CEnv.scanExpansions` is read off the source by
+the extractor on every run, so the model follows whichever code is there). -/
+
+section Rebinding
+/-- `(defmac defv [v x] ^(def ~v ~x))` -/
+def defv : Macro :=
+  { params := ["v", "x"], body := (Tmpl.list [.lit (.sym "def"), .unquote (sym "v"), .unquote (sym "x")]).toSexp }
+def rbE (scan : Bool) : CEnv :=
+  { mkHash := exH.mkHash, macros := fun f => if f = "defv" then some defv else none,
+    builtin := fun _ => false, scanExpansions := scan }
+/-- `(defn g [n] □ (g n))` -/
+def defG (hole : Sexp) : Sexp :=
+  lst [sym "defn", sym "g", .arr (lst [sym "n"]), hole, lst [sym "g", sym "n"]]
+
+/-- **Pre-fix (scan of the written body only).** `(defn g [n] (defv g 7) (g n))` compiles the
+call `(g n)` as a tail jump, `(defn g [n] (def g 7) (g n))` as an ordinary call: the macro call
+does not equal the hand-written form. -/
+theorem C15_counterexample_rebinding_through_macro :
+    genProgram (rbE false) 50 [defG (lst [sym "defv", sym "g", num 7])]
+      = some [.fnOpen, .prepCall 1, .remScope, .goto0, .remScope, .fnClose]
+    ∧ genProgram (rbE false) 50 [defG (lst [sym "def", sym "g", num 7])]
+      = some [.fnOpen, .callX "g" 1, .remScope, .fnClose] := by
+  decide
+
+/-- With the scan following expansions (fixes/C15-04) both compile to the ordinary call. -/
+theorem rebinding_through_macro_repaired :
+    genProgram (rbE true) 50 [defG (lst [sym "defv", sym "g", num 7])]
+      = genProgram (rbE true) 50 [defG (lst [sym "def", sym "g", num 7])] := by
+  decide
+
+/-- In general: when the scan follows expansions, a macro call binds whatever its expansion
+binds — at any nesting, for any macro. -/
+theorem rebinding_sees_expansion (E : CEnv) (name f : String) (args : Sexp) (as : List Sexp) (m : Macro)
+    (x : Sexp) (n : Nat) (hscan : E.scanExpansions = true) (hm : E.macros f = some m)
+    (ha : listToArray args = some as) (hx : expand E.mkHash m as = some x)
+    (hb : bindsName E name n x = true) :
+    bindsName E name (n + 1) (.cons (.atom (.sym f)) args) = true := by
+  simp [bindsName, ha, hscan, hm, hx, hb]
+end Rebinding
+
+/-! ### tie T1 for the two strengthenings (`Generated/SQCtx.lean`, regenerated every run) -/
+
+/-- Inside the syntax-quote generator exactly one instruction pushes a template object as a
+literal: the fall-through of GenerateSyntaxQuote, which arrays, lists and hashes never reach
+(each case of the type switch returns) — the `| s => some [.push s]` arm of `genSQ`. -/
+theorem emit_literal_push_sites :
+    Generated.SQCtx.literalPushSites = ["GenerateSyntaxQuote||PushInstr{arg}"]
+    ∧ Generated.SQCtx.topCaseTypes = ["*SexpArray", "*SexpPair", "*SexpHash"]
+    ∧ Generated.SQCtx.topCasesReturn = true := by decide
+
+/-- The macro branch: Duplicate, Apply on the duplicate, then `return gen.Generate(expr)` — the
+generator that met the call compiles the expansion (`genC`, macro arm). -/
+theorem emit_macro_branch :
+    Generated.SQCtx.macroBranch
+      = ["call:gen.env.Duplicate", "call:env.Apply", "if[", "ret:err", "]", "ret:gen.Generate"] := by decide
+
+/-- The switch of GenerateCallBySymbol has exactly the cases `genC` treats as special forms. -/
+theorem emit_special_forms : Generated.SQEmit.callBySymbolCases = specialForms := by decide
+
+/-- Every place where generator.go creates a generator or writes one of the context fields
+Tail / scopes / funcname, in source order — what `genBegin`, `genFun`, `genShort`, `genCond`,
+`genLet`, `genFor`, `genNewScope` and the ordinary-call arm of `genC` were written against
+(e.g. a cond predicate is compiled after `Reset()` with nothing copied; the four
+sub-generators of a loop get Tail false, scopes, funcname). Other files only create generators. -/
+theorem emit_ctx_writes : Generated.SQCtx.ctxWrites =
+    ["EvalCallExpression|new:gen=NewGenerator", "LoadExpressions|new:gen=NewGenerator", "Force|new:gen=NewGenerator",
+     "FuncBuilder|new:gen=NewGenerator", "EvalFunction|new:gen=NewGenerator",
+     "NewGenerator|set:gen.Tail=false", "NewGenerator|set:gen.scopes=0", "NewSubGenerator|new:subgen=NewGenerator",
+     "GenerateBegin|set:gen.Tail=false", "GenerateBegin|set:gen.Tail=oldtail",
+     "buildSexpFun|new:gen=NewGenerator", "buildSexpFun|set:gen.Tail=true",
+     "buildSexpFun|set:gen.funcname=env.GenSymbol(\"__anon\").name", "buildSexpFun|set:gen.funcname=name",
+     "buildSexpFun|set:gen.funcname=\"\"",
+     "GenerateDef|set:gen.Tail=false",
+     "GenerateShortCircuit|new:subgen=gen.NewSubGenerator", "GenerateShortCircuit|set:subgen.scopes=gen.scopes",
+     "GenerateShortCircuit|set:subgen.Tail=gen.Tail", "GenerateShortCircuit|set:subgen.funcname=gen.funcname",
+     "GenerateShortCircuit|use:subgen.Generate",
+     "GenerateShortCircuit|new:subgen=gen.NewSubGenerator", "GenerateShortCircuit|set:subgen.scopes=gen.scopes",
+     "GenerateShortCircuit|set:subgen.funcname=gen.funcname", "GenerateShortCircuit|use:subgen.Generate",
+     "GenerateCond|new:subgen=gen.NewSubGenerator", "GenerateCond|set:subgen.Tail=gen.Tail",
+     "GenerateCond|set:subgen.scopes=gen.scopes", "GenerateCond|set:subgen.funcname=gen.funcname",
+     "GenerateCond|use:subgen.Generate", "GenerateCond|reset:subgen", "GenerateCond|use:subgen.Generate",
+     "GenerateCond|reset:subgen", "GenerateCond|set:subgen.Tail=gen.Tail", "GenerateCond|set:subgen.scopes=gen.scopes",
+     "GenerateCond|set:subgen.funcname=gen.funcname", "GenerateCond|use:subgen.Generate", "GenerateCond|reset:subgen",
+     "GenerateLet|++:gen.scopes", "GenerateLet|--:gen.scopes",
+     "GenerateCallBySymbol|set:gen.Tail=false", "GenerateCallBySymbol|set:gen.Tail=oldtail",
+     "Reset|set:gen.Tail=false", "Reset|set:gen.scopes=0",
+     "GenerateForLoop|++:gen.scopes",
+     "GenerateForLoop|new:subgenBody=gen.NewSubGenerator", "GenerateForLoop|set:subgenBody.Tail=false",
+     "GenerateForLoop|set:subgenBody.scopes=gen.scopes", "GenerateForLoop|set:subgenBody.funcname=gen.funcname",
+     "GenerateForLoop|use:subgenBody.GenerateBegin",
+     "GenerateForLoop|new:subgenInit=gen.NewSubGenerator", "GenerateForLoop|set:subgenInit.Tail=false",
+     "GenerateForLoop|set:subgenInit.scopes=gen.scopes", "GenerateForLoop|set:subgenInit.funcname=gen.funcname",
+     "GenerateForLoop|use:subgenInit.Generate",
+     "GenerateForLoop|new:subgenT=gen.NewSubGenerator", "GenerateForLoop|set:subgenT.Tail=false",
+     "GenerateForLoop|set:subgenT.scopes=gen.scopes", "GenerateForLoop|set:subgenT.funcname=gen.funcname",
+     "GenerateForLoop|use:subgenT.Generate",
+     "GenerateForLoop|new:subgenIncr=gen.NewSubGenerator", "GenerateForLoop|set:subgenIncr.Tail=false",
+     "GenerateForLoop|set:subgenIncr.scopes=gen.scopes", "GenerateForLoop|set:subgenIncr.funcname=gen.funcname",
+     "GenerateForLoop|use:subgenIncr.Generate", "GenerateForLoop|--:gen.scopes",
+     "GenerateMultiDef|set:gen.Tail=false",
+     "GenerateNewScope|set:gen.Tail=false", "GenerateNewScope|++:gen.scopes", "GenerateNewScope|set:gen.Tail=oldtail",
+     "GenerateNewScope|--:gen.scopes",
+     "GeneratePackage|set:gen.Tail=false", "GeneratePackage|set:gen.Tail=oldtail",
+     "SourceExpressions|new:gen=NewGenerator"] := by decide
 
 /-! ### the pinned tree (before fixes/C15-02, C15-03 and the error-propagation commit) -/
 
